@@ -33,6 +33,18 @@ chk("C16",
     "TLA+ spec + TLC exhaustive model checking; spec-emitted table executed against the implementation; behaviour replay",
     "DESIGN.md §5 C16")
 
+chk("C03",
+    "TLC model-checks spec/own/Ownership.tla (payloads, the four runtime containers, boxed handles; one action per API step) "
+    "for AtMostOnce / ExactlyOnce-at-quiescence / NoStrand over all histories of <=9 (11) steps with 3 payloads and 5 containers; "
+    "the negative model (into() without suppressing Drop) must be refuted. Every TLC-enumerated quiescent behaviour is replayed "
+    "on the real DiplomatResult/DiplomatOption/DiplomatOwnedSlice/DiplomatCallback with drop-counting payloads and a "
+    "quarantining allocator (double frees are counted, not UB), comparing drop counters after every step; seeded random "
+    "histories recorded from the real types are validated by Trace_Ownership.tla.",
+    "Foreign code is assumed to honour its contract (no use after destroy). Bounds as stated. Trusts TLC, rustc, the harness's "
+    "allocator instrumentation. The generated C/C++ API under ASan is exercised by the compile-and-run leg.",
+    "TLA+ spec + TLC exhaustive model checking; spec->impl behaviour replay; impl->spec trace validation",
+    "DESIGN.md §5 C03")
+
 NOT_YET = {}
 
 
